@@ -12,18 +12,23 @@ Section SizeAt.
   Definition epoch_owns (t : num) (e : epoch) : bool :=
     ngt (e_start e) t && nge t (e_end e).
 
+  (* min(max(N, lo), hi) with lo = min(start_size, end_size), hi = max(start_size, end_size):
+     rounding in the interpolation must not take the size outside the range of the epoch's sizes *)
+  Definition clamp_size (e : epoch) (x : num) : num :=
+    pymin (pymax x (pymin (e_ssize e) (e_esize e))) (pymax (e_ssize e) (e_esize e)).
+
   Definition size_in_epoch (e : epoch) (t : num) : res num :=
     if isclose0 t (e_end e) || String.eqb (e_sf e) "constant"
-       || neqb (e_ssize e) (e_esize e) then Ok (e_esize e)
+       || neqb (e_ssize e) (e_esize e) then Ok (clamp_size e (e_esize e))
     else if String.eqb (e_sf e) "exponential" then
       dt <- pdiv (nsub (e_start e) t) (nsub (e_start e) (e_end e)) ;;
       q <- pdiv (e_esize e) (e_ssize e) ;;
       r <- plog q ;;
       x <- pexp (nmul r dt) ;;
-      Ok (nmul (e_ssize e) x)
+      Ok (clamp_size e (nmul (e_ssize e) x))
     else if String.eqb (e_sf e) "linear" then
       dt <- pdiv (nsub (e_start e) t) (nsub (e_start e) (e_end e)) ;;
-      Ok (nadd (e_ssize e) (nmul (nsub (e_esize e) (e_ssize e)) dt))
+      Ok (clamp_size e (nadd (e_ssize e) (nmul (nsub (e_esize e) (e_ssize e)) dt)))
     else Err OtherErr.
 
   Definition size_at (d : deme) (t : num) : res num :=
